@@ -235,6 +235,13 @@ func (s *Statement) Pipeline(task *pod_info.PodInfo, hostname string, updateTask
 	previousNode := task.NodeName
 	task.NodeName = hostname
 	previousGpuGroup := task.GPUGroups
+	if previousNodeInfo, found := s.ssn.ClusterInfo.Nodes[previousNode]; found && previousNode != hostname {
+		if taskOnPreviousNode, found := previousNodeInfo.PodInfos[taskKey]; found {
+			// The caller already stored the new gpu groups in the task. A task that is still releasing from
+			// another node is indexed there with the gpu groups it had before.
+			previousGpuGroup = taskOnPreviousNode.GPUGroups
+		}
+	}
 	previousIsVirtualStatus := task.IsVirtualStatus
 	var previousResourceClaimInfo bindrequest_info.ResourceClaimInfo
 	if task.ResourceClaimInfo != nil {
